@@ -108,10 +108,13 @@ class PauliSumExponential:
         """
         if protocols.is_parameterized(self._exponent):
             raise ValueError("Exponent should not parameterized.")
-        ret = np.ones(1)
-        for pauli_string_exp in self:
-            ret = np.kron(ret, protocols.unitary(pauli_string_exp))
-        return ret
+        # The rotation factors commute but may share qubits and need not follow the qubit order,
+        # so they are multiplied on the operator's qubits (not combined with a Kronecker product).
+        qubits = self.qubits
+        dim = 2 ** len(qubits)
+        state = np.eye(dim, dtype=np.complex128).reshape((2,) * (2 * len(qubits)))
+        args = protocols.ApplyUnitaryArgs(state, np.empty_like(state), range(len(qubits)))
+        return protocols.apply_unitaries(list(self), qubits, args).reshape((dim, dim))
 
     @_compat.cached_method
     def _has_unitary_(self) -> bool:
